@@ -1205,6 +1205,11 @@ def replay(ctx, case):
     print(c05gen.case_text(case))
     for t in case['comments']:
         print(t)
+    if case.get('dump'):
+        print('runtime dump:', case['dump'])
     status, err, xml = check_scanned(decls, comments, case.get('dump'), c05gen.INCLUDES)
+    if err and xml:
+        text = xml.decode('utf-8')
+        print(text[text.index('<namespace'):])
     print('result:', status, err or 'ok')
     return err is None
